@@ -126,6 +126,23 @@ CLAIMED['C05'] = dict(
     note='Partial: a fixed family of programs (their inputs are symbolic, their shape is not). Outside: switch, multi-clause for, <<-, into, eval, splat parameters, structs, the parser itself. Stubs: comparison operators (integer comparison '
          'yielding 1/0) and print (recorder); error messages opaque; RefCell borrow flags not modelled.',
     design='§7 C05', technique='symbolic execution of rustc MIR of the evaluator on real parse trees + SMT (z3); reference interpreter evaluated symbolically')
+CLAIMED['C17'] = dict(
+    text='Bounded symbolic model checking at statement level: the real `evaluate` with Expr::Freeze -> core::freeze / freeze_lvalue / FreezeEnv (the tree rewrite that resolves free identifiers to Frozen(value) and tracks bound names) '
+         'and Expr::Frozen at use, executed on the real parse trees of ~25 programs `… f := freeze \\\\a, b -> BODY; …; f(x, y)` with symbolic integer inputs: 15 bodies over arithmetic, if, for, while with continue, for-yield with guard, '
+         'try / throw, nested lambda, break with value, and / or / coalesce, print, free outer data and an outer function, a shadowing local; eager-binding programs (outer data / function reassigned after the freeze) and freeze-time '
+         'failures (unbound free variable, assignment to an outer variable, even when the function is never called). Oracle: the C05 reference interpreter extended with the documented meaning of freeze (the frozen function computes what the '
+         'unfrozen one computes from the values its free variables had at freeze time); every implementation path agrees on value, raised-or-not and printed output for all x, y.',
+    note='Partial: a fixed family of programs. Outside: switch, structs, import, bare underscore, operators whose precedence is changed inside frozen code, constant folding of list literals and negative literals, programs outside the family. Stubs as C05.',
+    design='§7 C17', technique='symbolic execution of rustc MIR of the evaluator and of freeze on real parse trees + SMT (z3); reference interpreter evaluated symbolically')
+CLAIMED['C13'] = dict(
+    text='Bounded symbolic model checking of the sequence functions that are noulith\'s own loop-free glue and do not call back into the evaluator: the builtin closures reverse, tail, butlast, uncons, uncons?, unsnoc, unsnoc?, second, third, '
+         'only, len, enumerate, prefixes, suffixes, window, unique, frequencies, flatten, in / ∈ / not_in / ∉ / contains / ∋ / ∌ are executed on lists of 0..3 (thorough: 4) symbolic integers (every i64 value and every equality pattern '
+         'between the elements; window sizes 1..3; flatten on up to 3 rows) and compared with the one-line definition of BUILTINS.md written out over the symbolic elements (first-occurrence order for unique, occurrence counts and default 0 '
+         'for frequencies, membership by ==, errors on too-short input where documented); no path panics.',
+    note='Partial: 25 of the ~60 functions the property lists. Outside: every function that takes a function argument or is implemented as a struct with access to the environment (map, filter, fold, scan, sort with comparator, zip, group, '
+         'partition, find, locate, take / drop with predicates, sum / product / min / max folds, ++ and friends), sort / transpose / join / split / words / lines, inputs other than lists of integers, longer lists. '
+         'The index, ordering, key and stream parts of the property\'s mechanism list are decided under C10, C08, C09, C11; panic-freedom of the rest of the closure-registered builtins under C14.',
+    design='§7 C13', technique='symbolic execution of rustc MIR of the builtin closures + SMT (z3); definitions as formulas over the symbolic elements')
 NOT_APPLICABLE = {
  'C13': 'sequence library vs executable specification: the deciding content is std collections glued by one-line closures over whole sequences; not encodable as a bounded solver query over noulith code (DESIGN §9); parts decided under C08/C09/C10/C11/C14',
  'C17': 'freeze: semantic equivalence of two recursive traversals over programs; a bounded solver query cannot carry it (DESIGN §9)',
